@@ -22,6 +22,8 @@ def _worker(args):
     mod = importlib.import_module(modname)
     try:
         _t = time.time()
+        if os.environ.get("XMC_TIMING") == "2":
+            print("    start %s" % task.get("label"), flush=True)
         st = mod.run_task(task)
         st.task_error = None
         if os.environ.get("XMC_TIMING"):
